@@ -10,6 +10,8 @@ import (
 	"os"
 	"strings"
 	"sync"
+	"sync/atomic"
+	"time"
 
 	"github.com/iotaledger/hive.go/kvstore"
 	"github.com/iotaledger/hive.go/kvstore/mapdb"
@@ -316,6 +318,122 @@ func conc(r *vx.Rng, st *vx.Stats, runs int) {
 	}
 }
 
+// hookStore calls on() before and after every Get/Set of the wrapped store (the store-operation boundaries).
+type hookStore struct {
+	kvstore.KVStore
+	on func()
+}
+
+func (h *hookStore) Get(k kvstore.Key) (kvstore.Value, error) {
+	h.on()
+	v, err := h.KVStore.Get(k)
+	h.on()
+	return v, err
+}
+
+func (h *hookStore) Set(k kvstore.Key, v kvstore.Value) error {
+	h.on()
+	err := h.KVStore.Set(k, v)
+	h.on()
+	return err
+}
+
+// windows: a second caller (Next or Release on the same object) is started exactly at a store-operation boundary of the
+// first caller's Next/Release and given 25 ms to run. With the object's mutex held across the store access (as the model
+// assumes: operations on one object are serial) the intruder just blocks until the first caller is done; if some store
+// access happens outside the critical section the intruder runs inside the window. Afterwards the object is abandoned
+// (crash), a new one is created and enough numbers are drawn to cross one interval: no number may ever repeat.
+func windows(r *vx.Rng, st *vx.Stats, lists int) {
+	for i := 0; i < lists; i++ {
+		interval := vx.Pick(r, []uint64{2, 3, 10})
+		nops := 2 + r.Intn(4)
+		ops := make([]string, nops)
+		for j := range ops {
+			ops[j] = vx.Pick(r, []string{"next", "next", "release"})
+		}
+		// dry run counts the store-operation boundaries of this op list; then every boundary x {next, release} is tried
+		n := windowRun(st, interval, ops, -1, "")
+		for at := int64(0); at < n; at++ {
+			for _, op := range []string{"next", "release"} {
+				windowRun(st, interval, ops, at, op)
+			}
+		}
+	}
+}
+
+func windowRun(st *vx.Stats, interval uint64, ops []string, at int64, intruder string) int64 {
+	inner := mapdb.NewMapDB()
+	hs := &hookStore{KVStore: inner, on: func() {}}
+	seq, _ := kvstore.NewSequence(hs, key, interval)
+	var mu sync.Mutex
+	var all []uint64
+	record := func(v uint64) { mu.Lock(); all = append(all, v); mu.Unlock() }
+	var calls atomic.Int64
+	var intruding atomic.Bool
+	var wg sync.WaitGroup
+	hs.on = func() {
+		if intruding.Load() {
+			return
+		}
+		if calls.Add(1)-1 != at {
+			return
+		}
+		done := make(chan struct{})
+		wg.Add(1)
+		intruding.Store(true)
+		go func() {
+			defer wg.Done()
+			if intruder == "next" {
+				if v, err := seq.Next(); err == nil {
+					record(v)
+				}
+			} else {
+				_ = seq.Release()
+			}
+			intruding.Store(false)
+			close(done)
+		}()
+		select {
+		case <-done:
+		case <-time.After(20 * time.Millisecond):
+		}
+	}
+	for _, op := range ops {
+		if op == "next" {
+			if v, err := seq.Next(); err == nil {
+				record(v)
+			}
+		} else {
+			_ = seq.Release()
+		}
+		wg.Wait()
+	}
+	hs.on = func() {}
+	seq2, _ := kvstore.NewSequence(hs, key, interval)
+	for k := uint64(0); k < 2*interval+2; k++ {
+		if v, err := seq2.Next(); err == nil {
+			record(v)
+		}
+	}
+	if at < 0 {
+		return calls.Load()
+	}
+	seen := map[uint64]bool{}
+	dup := false
+	for _, v := range all {
+		if seen[v] {
+			dup = true
+		}
+		seen[v] = true
+	}
+	st.Count("windows:runs")
+	if dup {
+		st.Fail(map[string]any{"sig": "", "kind": "second caller started at a store-operation boundary of the first", "interval": interval,
+			"ops": ops, "intruder": intruder, "at_store_boundary": at, "returned": all, "why": "a number was handed out twice"})
+	}
+	return calls.Load()
+}
+
 func main() {
 	if len(os.Args) < 2 || os.Args[1] != "hist" {
 		vx.Die("usage: hx-c07 hist --n N --len L --seed S --out cases.v --stats stats.json")
@@ -343,6 +461,7 @@ func main() {
 		emit(cf, st, genHistory(r.Fork(), 3+r.Intn(*maxLen)), "random")
 	}
 	conc(r.Fork(), st, 20)
+	windows(r.Fork(), st, 10)
 	if err := cf.Write(*out); err != nil {
 		vx.Die("%v", err)
 	}
